@@ -3,6 +3,7 @@ import os
 import stat
 from collections import defaultdict
 from collections.abc import Collection, Iterable, Iterator
+from contextlib import suppress
 from typing import (
     TYPE_CHECKING,
     Callable,
@@ -170,8 +171,15 @@ def _create_files(  # noqa: C901, PLR0912, PLR0913
 def _delete_dirs(entries, path, fs):
     # remove nested dirs before their parents, otherwise parents are not empty
     for entry in sorted(entries, key=lambda entry: len(entry.key), reverse=True):
+        dir_path = fs.join(path, *entry.key)
         try:
-            fs.rmdir(fs.join(path, *entry.key))
+            fs.rmdir(dir_path)
+        except NotADirectoryError:
+            # a symlink to a directory is listed as a directory, but it is the
+            # link itself that has to go (its target is left alone)
+            if isinstance(fs, LocalFileSystem):
+                with suppress(OSError):
+                    os.unlink(dir_path)
         except OSError:
             pass
 
